@@ -253,7 +253,7 @@ def c12_bounded(tier, seed):
                       "C12/control-transfer-ends-its-block-with-its-edges", "C12/indirect-transfer-targets-a-registered-proxy",
                       "C12/direct-edge-leads-to-the-block-of-its-label", "C12/label-is-a-symbol-on-the-block-starting-at-its-position",
                       "C12/unreferenced-byte-only-blocks-are-data", "C12/blocks-with-instructions-are-code", "C12/one-expression-per-symbolic-operand",
-                      "C12/expression-has-the-right-symbol-and-addend", "C12/expression-size-recorded", "C12/supported-text-assembles"]
+                      "C12/expression-has-the-right-symbol-and-addend", "C12/expression-has-the-right-attributes", "C12/expression-size-recorded", "C12/supported-text-assembles"]
         distinct = set()
         for isa_key in ISAS:
             for combo in programs(isa_key, maxlen, rnd, limit):
@@ -268,6 +268,37 @@ def c12_bounded(tier, seed):
                         br.failures.append({"clause": cl, "witness": {"isa": isa_key, "text": text.splitlines()}, "detail": d})
                     if len(br.samples) < 3:
                         br.samples.append({"isa": isa_key, "text": text.splitlines()})
+        # attributes of control-transfer operands that name an EXTERNAL symbol in a position-independent ELF module: the x86 psABIs send
+        # every such branch through the PLT, whatever the kind of branch (call, jmp, conditional jump)
+        from gtirb_rewriting import _auxdata as _ax
+        from gtirb_test_helpers import add_proxy_block
+        for isa_key in ("x64-att", "x64-intel", "ia32"):
+            isa, ff, syntax, cs = ISAS[isa_key]
+            for btype in (["DYN"], ["EXEC"]):
+                seen = {}
+                for text in ("call ext", "jmp ext", "je ext", "jne ext", "nop\nje ext\nnop", "jmp ext\nnop"):
+                    ir, m = create_test_module(gtirb.Module.FileFormat.ELF, isa)
+                    _ax.binary_type.set(m, list(btype))
+                    ext = add_symbol(m, "ext", add_proxy_block(m))
+                    a = Assembler(m)
+                    br.cases += 1
+                    distinct.add(("attrs", isa_key, tuple(btype), text))
+                    try:
+                        a.assemble(text, syntax)
+                        res = a.finalize()
+                    except Exception as e:       # noqa
+                        br.failures.append({"clause": "C12/supported-text-assembles", "witness": {"isa": isa_key, "binary type": btype, "text": text.splitlines()}, "detail": "%s: %s" % (type(e).__name__, str(e)[:100])})
+                        continue
+                    ex = [e for e in res.text_section.symbolic_expressions.values() if e.symbol is ext]
+                    if len(ex) != 1:
+                        br.failures.append({"clause": "C12/one-expression-per-symbolic-operand", "witness": {"isa": isa_key, "text": text.splitlines()}, "detail": "%d expressions name ext" % len(ex)})
+                        continue
+                    seen[text] = sorted(x.name for x in ex[0].attributes)
+                want = ["PLT"] if btype == ["DYN"] else None
+                for text, got in seen.items():
+                    if (want is not None and got != want) or got != seen.get("call ext", got):
+                        br.failures.append({"clause": "C12/expression-has-the-right-attributes", "witness": {"isa": isa_key, "binary type": btype, "text": text.splitlines()},
+                                            "detail": "attributes %s; 'call ext' gets %s%s" % (got, seen.get("call ext"), "" if want is None else ", the psABI demands %s" % want)})
         br.nontrivial = len(distinct)
         return br
     return run
